@@ -195,7 +195,7 @@ func checks() map[string]CheckDef {
 				Labels: []string{"C06/manager-created", "C06/no-sync-peer-when-all-peers-are-behind", "C06/a-peer-at-or-above-our-height-is-chosen", "C06/only-the-sync-peer-is-asked", "C06/exactly-one-initial-request",
 					"C06/initial-request-from-our-tip-to-next-checkpoint", "C06/answering-sync-peer-is-kept", "C06/answer-with-progress-is-followed-by-one-request", "C06/follow-up-request-from-new-tip-to-next-checkpoint"}},
 			{Pkg: "transports/p2p/p2psync", Func: "HarnessInvAfterSync", Quick: [][]int64{{0, 0}, {1, 0}, {0, 1}}, Thorough: [][]int64{{2, 0}, {3, 0}, {2, 1}},
-				Labels: []string{"C06/empty-answer-sends-nothing", "C06/announced-unknown-block-is-requested"}},
+				Labels: []string{"C06/empty-answer-sends-nothing", "C06/announced-unknown-block-is-requested", "C06/sync-peer-kept-when-another-connects"}},
 			{Pkg: "transports/p2p/p2psync", Func: "HarnessSyncPeerLost", Quick: [][]int64{{0, 0}, {1, 0}, {0, 1}}, Thorough: [][]int64{{2, 0}, {3, 0}, {2, 1}},
 				Labels: []string{"C06/another-candidate-takes-over", "C06/new-sync-peer-is-asked"}},
 			{Pkg: "transports/p2p/p2psync", Func: "HarnessStalledSyncPeer", Quick: [][]int64{{1, 0}, {0, 1}}, Thorough: [][]int64{{2, 0}, {3, 0}, {1, 1}},
@@ -203,7 +203,7 @@ func checks() map[string]CheckDef {
 			{Pkg: "transports/p2p/p2psync", Func: "HarnessHeadersBatch", Quick: [][]int64{{2, 1}, {2, 2}}, Thorough: [][]int64{{3, 2}, {4, 1}},
 				Labels: []string{"C07/exactly-one-follow-up-request", "C07/request-stops-at-the-next-checkpoint", "C07/after-the-last-checkpoint-requests-are-unbounded", "C07/matching-checkpoint-advances-sync-from-it"}},
 		},
-		Bounds: []string{"C06 is claimed as step obligations of the default sync engine, not as a liveness proof: P1 choice of the sync peer and the first request (m<=3 candidate peers connecting in turn with arbitrary best heights, arbitrary own tip, n<=2 arbitrary ascending checkpoints or checkpoints disabled, manager built by the real constructor); P2 an answer that makes progress keeps the peer and is followed by exactly one request from the new tip; P3 batch continuation incl. checkpoint hand-over (HarnessHeadersBatch, shared with C07); P4 a block announced by inv after an answer that brought nothing new is requested and the request really reaches the peer's send queue (through the real duplicate-request filter of peer.Peer); P5 when the sync peer leaves, another candidate takes over and is asked; P6 the periodic check disconnects a sync peer that delivered nothing for more than the stall limit (any idle time up to 2^20 s except within 10 s of the 180 s limit) while we are below its height and asks another candidate, and keeps one within the limit or caught up",
+		Bounds: []string{"C06 is claimed as step obligations of the default sync engine, not as a liveness proof: P1 choice of the sync peer and the first request (m<=3 candidate peers connecting in turn with arbitrary best heights, arbitrary own tip, n<=2 arbitrary ascending checkpoints or checkpoints disabled, manager built by the real constructor); P2 an answer that makes progress keeps the peer and is followed by exactly one request from the new tip; P3 batch continuation incl. checkpoint hand-over (HarnessHeadersBatch, shared with C07); P4 a block announced by inv (by the sync peer or by another connected peer, the node being current) after an answer that brought nothing new is requested from the announcer and the request really reaches the peer's send queue (through the real duplicate-request filter of peer.Peer); P5 when the sync peer leaves, another candidate takes over and is asked; P6 the periodic check disconnects a sync peer that delivered nothing for more than the stall limit (any idle time up to 2^20 s except within 10 s of the 180 s limit) while we are below its height and asks another candidate, and keeps one within the limit or caught up",
 			"the convergence argument built from the steps (each answered request either adds headers or ends at the peer's tip; every such state has exactly one outstanding request or is current) is an argument, not solver-checked"},
 		Outside: []string{"the ticker and the blockHandler select loop, sockets and goroutines; the network-speed half of the periodic check (bytes received per tick)", "the experimental engine (transports/p2p/peer + network), whose sync loop is goroutines over sockets", "reorganisation to a more-work chain is C01/C03 (storage) - the engine only has to keep asking", "headers arriving from a peer that is not the sync peer", "map iteration order in startSync is insertion order in the encoder (the choice among equal candidates is by crypto/rand, modelled as arbitrary)"},
 		Stubs:   []string{"service.Headers replaced by a stub with an arbitrary tip (height, hash, IsCurrent)", "service.Chains stub returning the stated outcome per header", "real peerpkg.Peer objects marked connected with a no-op connection; queued messages and Disconnect observed through in-package helpers", "crypto/rand.Int returns an arbitrary value in [0, max)", "SyncManager.logSyncState (logging) is a no-op"},
@@ -224,7 +224,7 @@ func checks() map[string]CheckDef {
 		ID: "C18", Level: "model_checking",
 		Runs: []HRun{
 			{Pkg: "transports/p2p", Func: "HarnessAdmission",
-				Labels: []string{"C18/admitted-iff-not-banned-and-below-both-limits", "C18/refused-peer-is-disconnected", "C18/refusal-changes-no-counter", "C18/never-above-total-limit", "C18/never-above-per-host-limit",
+				Labels: []string{"C18/admitted-iff-not-banned-and-below-both-limits", "C18/refused-peer-is-disconnected", "C18/refusal-changes-no-counter", "C18/refused-peer-leaving-changes-no-counter", "C18/never-above-total-limit", "C18/never-above-per-host-limit",
 					"C18/admission-counts-host-and-group", "C18/counters-return-when-peer-leaves", "C18/ban-lasts-the-configured-duration", "C18/expired-ban-is-dropped-on-admission", "C18/ban-kept-until-expiry-then-dropped"}},
 			{Pkg: "transports/p2p", Func: "HarnessBan",
 				Labels: []string{"C18/ban-runs-from-the-latest-ban", "C18/ban-changes-no-counter", "C18/banned-host-is-refused-while-the-ban-runs"}},
